@@ -939,3 +939,93 @@ Proof.
   intros Hc Hwx Hnb HK HP. eexists. split; [apply (write_is_layout_x c d Hwx HK)|].
   apply (HP (layout_x c d)). apply layout_x_wf; assumption.
 Qed.
+
+(* ------------------------------------------------------------------ 6. the parser-aware class lies inside the class of the theorem *)
+(* a cleaner flag never hurts *)
+Lemma okd_mono e :
+  (forall v, okd_value e true v = true -> okd_value e false v = true) /\
+  (forall f, okd_field e true f = true -> okd_field e false f = true) /\
+  (forall fs, okd_fields e true fs = true -> okd_fields e false fs = true) /\
+  (forall vs, okd_items e true vs = true -> okd_items e false vs = true).
+Proof.
+  apply doc_mutind.
+  - auto.
+  - intros fs H tl _. rewrite !okd_obj. exact H.
+  - intros items H. rewrite !okd_arr. exact H.
+  - intros items H kvs _. rewrite !okd_akv. intros E. apply andb_prop in E as [E1 E2]. rewrite (H E1), E2. reflexivity.
+  - intros name v H. rewrite !okd_hdr. exact H.
+  - intros k key op v H. rewrite !okd_fld. intros E. apply andb_prop in E as [_ E2]. rewrite (H E2). reflexivity.
+  - auto.
+  - intros name u fs H. rewrite !okd_po. exact H.
+  - auto.
+  - intros f Hf fs Hfs. rewrite !okd_fcons. intros E. apply andb_prop in E as [E1 E2]. rewrite (Hf E1).
+    rewrite (proj1 (proj2 da_false)). destruct (da_field true f); [apply Hfs, E2|exact E2].
+  - auto.
+  - intros v Hv vs Hvs. rewrite !okd_icons. intros E. apply andb_prop in E as [E1 E2]. rewrite (Hv E1).
+    replace (da_value false v) with false by reflexivity. destruct (da_value true v); [apply Hvs, E2|exact E2].
+Qed.
+
+Lemma okd_mono_b e (a b : bool) v : (b = true -> a = true) -> okd_value e a v = true -> okd_value e b v = true.
+Proof.
+  destruct a, b; auto.
+  - intros _. apply (proj1 (okd_mono e)).
+  - intros H. discriminate (H eq_refl).
+Qed.
+
+Lemma okp_obj dd fs tl : okp_value dd (VObject fs tl) = okp_fields dd fs. Proof. reflexivity. Qed.
+Lemma okp_arr dd items : okp_value dd (VArray items) = okp_items dd items. Proof. reflexivity. Qed.
+Lemma okp_akv dd items kvs : okp_value dd (VArrayKv items kvs) = okp_items dd items && okp_kvs false false kvs. Proof. reflexivity. Qed.
+Lemma okp_hdr dd name v : okp_value dd (VHeader name v) = okp_value dd v. Proof. reflexivity. Qed.
+Lemma okp_fld dd k key op v : okp_field dd (Field k key op v) = negb (dd && op_written false op) && okp_value dd v. Proof. reflexivity. Qed.
+Lemma okp_po dd name u fs : okp_field dd (ParamO name u fs) = okp_fields dd fs. Proof. reflexivity. Qed.
+Lemma okp_fcons dd f r : okp_fields dd (FCons f r) = okp_field dd f && okp_fields (da_field dd f) r. Proof. reflexivity. Qed.
+Lemma okp_icons dd v r : okp_items dd (VCons v r) = okp_value dd v && okp_items (da_value dd v) r. Proof. reflexivity. Qed.
+Lemma okp_kcons lost pf k key op v r :
+  okp_kvs lost pf (FCons (Field k key op v) r) =
+  okp_value (negb lost) v && (if is_scalar v then okp_kvs lost pf r else okp_kvs (pf || sws v) (pf || sws v) r).
+Proof. reflexivity. Qed.
+
+Lemma okp_okd :
+  (forall v dd, okp_value dd v = true -> okd_value false dd v = true) /\
+  (forall f, (forall dd, okp_field dd f = true -> okd_field false dd f = true) /\
+             (forall v, fval f = Some v -> forall dd, okp_value dd v = true -> okd_value false dd v = true)) /\
+  (forall fs, (forall dd, okp_fields dd fs = true -> okd_fields false dd fs = true) /\
+              (forall lost pf lost', (lost = true -> lost' = true) -> okp_kvs lost pf fs = true -> okd_kvs false lost' fs = true)) /\
+  (forall vs dd, okp_items dd vs = true -> okd_items false dd vs = true).
+Proof.
+  apply doc_mutind.
+  - auto.
+  - intros fs [H _] tl _ dd. rewrite okp_obj, okd_obj. apply H.
+  - intros items H dd. rewrite okp_arr, okd_arr. apply H.
+  - intros items H kvs [_ HK] dd. rewrite okp_akv, okd_akv. intros E. apply andb_prop in E as [E1 E2].
+    rewrite (H _ E1), (HK false false false (fun x => x) E2). reflexivity.
+  - intros name v H dd. rewrite okp_hdr, okd_hdr. apply H.
+  - intros k key op v H. split; [|intros v' E; inversion E; subst; exact H].
+    intros dd. rewrite okp_fld, okd_fld. intros E. apply andb_prop in E as [E1 E2]. rewrite E1, (H _ E2). reflexivity.
+  - intros name u s. split; [auto|intros v' E; discriminate E].
+  - intros name u fs [H _]. split; [|intros v' E; discriminate E]. intros dd. rewrite okp_po, okd_po. apply H.
+  - split; auto.
+  - intros f [Hf Hv] fs [Hfs Hks]. split.
+    + intros dd. rewrite okp_fcons, okd_fcons. intros E. apply andb_prop in E as [E1 E2]. rewrite (Hf _ E1), (Hfs _ E2). reflexivity.
+    + intros lost pf lost' Hl. destruct f as [k key op v|name u s0|name u fs0];
+        [|change (okp_kvs lost pf (FCons (ParamV name u s0) fs)) with (okp_kvs lost pf fs);
+          change (okd_kvs false lost' (FCons (ParamV name u s0) fs)) with (okd_kvs false lost' fs); apply Hks; exact Hl
+         |change (okp_kvs lost pf (FCons (ParamO name u fs0) fs)) with (okp_kvs lost pf fs);
+          change (okd_kvs false lost' (FCons (ParamO name u fs0) fs)) with (okd_kvs false lost' fs); apply Hks; exact Hl].
+      rewrite okp_kcons, okd_kcons.
+      intros E. apply andb_prop in E as [E1 E2]. apply (Hv v eq_refl) in E1.
+      rewrite (okd_mono_b false (negb lost) (negb lost') v); [|destruct lost, lost'; auto; intros _; discriminate (Hl eq_refl)|exact E1].
+      destruct (is_scalar v); cbn [negb orb].
+      * rewrite Bool.orb_false_r. apply (Hks lost pf lost' Hl E2).
+      * rewrite Bool.orb_true_r. apply (Hks _ _ true (fun _ => eq_refl) E2).
+  - auto.
+  - intros v Hv vs Hvs dd. rewrite okp_icons, okd_icons. intros E. apply andb_prop in E as [E1 E2]. rewrite (Hv _ E1), (Hvs _ E2). reflexivity.
+Qed.
+
+(* the class the oracles use on parsed tapes is inside the class of write_is_layout_x *)
+Theorem k14p_inside d : k14p_class d = 0%N -> K14 d = false.
+Proof.
+  unfold k14p_class, K14. destruct (pv_fields d); [discriminate|].
+  destruct (okp_fields false d) eqn:E; [|discriminate]. intros _.
+  rewrite (proj1 (proj1 (proj2 (proj2 okp_okd)) d) false E). reflexivity.
+Qed.
